@@ -3009,8 +3009,11 @@ static int report_value (
 	EGLPNUM_TYPE value)
 {
 	int rval = 0;
+	/* QSset_reporter stores the caller's interval as given */
+	int skip = lp->iterskip > 0 ? lp->iterskip : 1;
+	int keepalive = skip >= 10 ? skip / 10 : 1;
 
-	if (it->sdisplay && it->itercnt % lp->iterskip == 0)
+	if (it->sdisplay && it->itercnt % skip == 0)
 	{
 		char buffer[1024];
 
@@ -3021,7 +3024,7 @@ static int report_value (
 	else
 	{
 		/* make sure ILLstring_report is called at least every 10 iterations */
-		if (it->itercnt % (lp->iterskip / 10))
+		if (it->itercnt % keepalive)
 		{
 			rval = ILLstring_report (NULL, &lp->O->reporter);
 		}
